@@ -12,7 +12,7 @@ use crate::props::c13::run_rustfmt;
 
 pub struct C05;
 
-const FAULTS: &[&str] = &["unterminated-string", "unterminated-comment", "unclosed-delimiter", "token-soup", "missing-file", "ambiguous-module", "bad-toml", "required-version", "missing-root"];
+const FAULTS: &[&str] = &["unterminated-string", "unterminated-comment", "unclosed-delimiter", "token-soup", "bad-char-literal", "bad-escape", "bad-number", "missing-file", "ambiguous-module", "bad-toml", "required-version", "missing-root"];
 const MODES: &[&str] = &["files", "check", "stdout", "json", "files-backup"];
 
 fn mode_args(mode: &str) -> Vec<String> {
@@ -86,6 +86,10 @@ impl Property for C05 {
             "unterminated-comment" => tree.files[target].content.push_str("fn broken() { /* abc }\n"),
             "unclosed-delimiter" => tree.files[target].content.push_str("fn broken( {\n"),
             "token-soup" => tree.files[target].content.push_str("fn ) ( } {{ ;; struct\n"),
+            // lexer errors that do not stop the lexer
+            "bad-char-literal" => tree.files[target].content.push_str("fn broken() { let c = 'ab'; }\n"),
+            "bad-escape" => tree.files[target].content.push_str("fn broken() { let s = \"\\q\"; }\n"),
+            "bad-number" => tree.files[target].content.push_str("fn broken() { let n = 0b12; let e = 1e; }\n"),
             "missing-file" | "ambiguous-module" => {
                 // needs a module file that is declared by a plain `mod name;` (name.rs or name/mod.rs)
                 let cand: Vec<usize> = exp.iter().copied().filter(|i| matches!(tree.files[*i].decl.as_str(), "plain" | "inline")).collect();
